@@ -24,6 +24,8 @@ def shapes(h):
         # child i allocates 2-i words and writes i+7 into its word 0: shrinking memories with distinguishable content
         "alloc_shrink": [pop, com, OP(h, "Stack", "Dup"), push(2), OP(h, "Stack", "Swap"), OP(h, "Alu", "Sub"), OP(h, "Memory", "Alloc"),
                          OP(h, "Stack", "Pop"), push(7), OP(h, "Alu", "Add"), push(0), OP(h, "Memory", "Store"), come],
+        # children read the counter of the repeat scope the Compute sits in: they start with a copy of the parent's repeat stack
+        "repeat_counter": [pop, com, OP(h, "Access", "RepeatCounter"), OP(h, "Stack", "Pop"), come],
         # child i: writes its index into its own memory word 0, reads parent memory word 0 on top
         "store_index": [pop, com, push(1), OP(h, "Memory", "Alloc"), OP(h, "Stack", "Pop"), push(0), OP(h, "Memory", "Store"),
                         push(0), OP(h, "ParentMemory", "Load"), OP(h, "Stack", "Pop"), come],
@@ -125,7 +127,7 @@ HARNESSES = {
     "compute": dict(props=["C10", "C07", "C05"], crates=CR, fn=compute,
         params=dict(quick=dict(bmax=2, ns=1, nm=1), thorough=dict(bmax=3, ns=2, nm=2)),
         witnesses=["ok", "err-args", "err-child"],
-        bound=dict(quick="breadth -1..2 (symbolic), 8 child-body shapes (index-dependent growing and shrinking alloc / store + parent-memory read / HaltIf on the index / no ComputeEnd / nested Compute / last or first child jumping past ComputeEnd), parent stack <=1 + breadth, memory <=1 symbolic words, repeat stack <=1 symbolic slot, depth 0/1, any gas limit, per-op cost <=1000",
+        bound=dict(quick="breadth -1..2 (symbolic), 9 child-body shapes (reading the enclosing repeat counter / index-dependent growing and shrinking alloc / store + parent-memory read / HaltIf on the index / no ComputeEnd / nested Compute / last or first child jumping past ComputeEnd), parent stack <=1 + breadth, memory <=1 symbolic words, repeat stack <=1 symbolic slot, depth 0/1, any gas limit, per-op cost <=1000",
                    thorough="breadth up to 3, stack/memory <=2"),
         replay=dict(kind="vm_compute")),
 }
